@@ -113,7 +113,7 @@ func (h *Handler) HandleIQ(iq stanza.IQ, t xmlstream.TokenReadEncoder, start *xm
 			Open: p,
 		}, t)
 	case "close":
-		_, sid := attr.Get(start.Attr, "sid")
+		_, sid := attr.Own(start.Attr, "sid")
 
 		h.mu.Lock()
 		conn, ok := h.streams[sid]
